@@ -100,6 +100,9 @@ var (
 	errExecutorConfigMustBeStringOrMap = errors.New(
 		"executor config must be string or map",
 	)
+	errNullListItem = errors.New(
+		"steps, functions and preconditions must not contain null items",
+	)
 )
 
 // build builds a DAG from a configuration definition and the base DAG.
@@ -108,6 +111,9 @@ var (
 //   - envs: the environment variables of the base configuration.
 //     These are used to set the environment variables for the DAG.
 func (b *builder) build(def *definition, envs []string) (*DAG, error) {
+	if err := assertNoNullItems(def); err != nil {
+		return nil, err
+	}
 	b.def = def
 	b.envs = envs
 	b.dag = &DAG{
